@@ -78,6 +78,7 @@ def check(ctx) -> None:
     r56(ctx)
     r57(ctx)
     r58(ctx)
+    r59(ctx)
 
 
 # ----------------------------------------------------------------------
@@ -388,6 +389,21 @@ def r53_54(ctx) -> None:
                    'a CLOSE that fails (e.g. NO [READ-ONLY] after EXAMINE) '
                    'leaves the mailbox selected'),
                 'deselect dominates all suspension points')
+    # every completion of CLOSE has deselected (a return that skips the
+    # clear answers OK and stays selected)
+    f = cs.own_method('do_close')
+    cfg = cfg_of(f)
+    clears = _clear_nodes(cfg)
+    rets = cfg.find(lambda n: isinstance(n.stmt, ast.Return))
+    skip = sorted({r.lineno for r in rets
+                   if not cfg.dominated_by(r, clears, labels=ALL)})
+    R4.check(bool(rets) and not skip, f, f.node,
+             'do_close: every return has passed `_selected = None`',
+             f'return at line(s) {skip} is reachable without clearing the '
+             f'selection: CLOSE after EXAMINE answers OK but the mailbox '
+             f'stays selected — FETCH, UID SEARCH and a second CLOSE are '
+             f'accepted afterwards instead of "BAD Must select a mailbox '
+             f'first"')
     # R5.4 (ii): cannot be refused for being read-only
     f = cs.own_method('do_close')
     bs = ctx.proj.cls(SESS, 'BaseSession')
@@ -592,3 +608,81 @@ def r58(ctx) -> None:
                'fork (= R1.5): no handler restores an old selection')
     for i in r.instances:
         i.rule = 'R5.8'
+
+
+def r59(ctx) -> None:
+    R = ctx.rule('R5.9', 'state objects tested by truthiness are always '
+                 'truthy', 2)
+    # where is "is something selected / is there a session" decided by the
+    # truth value of the object itself?
+    tested: dict[str, list] = {}
+    ann_of: dict[str, str] = {}
+    for rel in ('pymap/imap/state.py', 'pymap/backend/session.py',
+                'pymap/imap/__init__.py'):
+        for f in ctx.proj.all_funcs(rel):
+            # names -> annotation text (parameters, and self._x via __init__)
+            anns = {}
+            a = f.node.args
+            for p_ in a.posonlyargs + a.args + a.kwonlyargs:
+                if p_.annotation is not None:
+                    anns[p_.arg] = txt(p_.annotation)
+            if f.cls is not None:
+                init = f.cls.own_method('__init__')
+                if init is not None:
+                    for s_ in walk_local(init.node):
+                        if isinstance(s_, ast.AnnAssign) and isinstance(
+                                s_.target, ast.Attribute):
+                            anns[txt(s_.target)] = txt(s_.annotation)
+            for t in walk_local(f.node):
+                test = t.test if isinstance(t, (ast.If, ast.IfExp,
+                                                ast.While)) else None
+                if test is None:
+                    continue
+                for x in ast.walk(test):
+                    # bare truth tests: the node itself is an operand of
+                    # not/and/or/if, not of a comparison or call
+                    pass
+                bare = []
+
+                def collect(e):
+                    if isinstance(e, ast.BoolOp):
+                        for v in e.values:
+                            collect(v)
+                    elif isinstance(e, ast.UnaryOp) and isinstance(
+                            e.op, ast.Not):
+                        collect(e.operand)
+                    elif isinstance(e, (ast.Name, ast.Attribute)):
+                        bare.append(e)
+                collect(test)
+                for e in bare:
+                    an = anns.get(txt(e), '')
+                    for cn in ('SelectedMailbox', 'SessionInterface'):
+                        if cn in an and 'None' in an:
+                            tested.setdefault(cn, []).append(
+                                f'{f.qualname}:{t.lineno}')
+    if 'SelectedMailbox' not in tested:
+        raise AnchorError('no truth test of an Optional[SelectedMailbox] '
+                          'found')
+    for cn, sites in sorted(tested.items()):
+        cands = [c for m in ctx.proj.modules.values()
+                 for c in m.classes.values() if c.name == cn]
+        # concrete subclasses too (sessions)
+        subs = [c for m in ctx.proj.modules.values()
+                for c in m.classes.values()
+                if any(b.name == cn for b in c.mro()[1:])]
+        for c in cands + subs:
+            if c.rel.startswith(('pymap/admin/', 'pymap/backend/redis/')):
+                continue
+            offenders = [k.name + '.' + nm for k in c.mro()
+                         for nm in ('__len__', '__bool__')
+                         if k.own_method(nm) is not None]
+            R.check(not offenders, None, c.node,
+                    f'{c.name}: no __len__/__bool__ (truth-tested at '
+                    f'{len(sites)} site(s))',
+                    f'{offenders} makes a {c.name} falsy in some state, but '
+                    f'{len(sites)} site(s) ({", ".join(sites[:4])}, …) '
+                    f'decide "is one present?" by its truth value: a '
+                    f'successful SELECT of a mailbox with 0 messages then '
+                    f'behaves as if nothing were selected (FETCH -> BAD '
+                    f'"Must select a mailbox first", NOOP/APPEND never '
+                    f'deliver EXISTS)')
